@@ -47,8 +47,46 @@ fn fields_match(d: &DateTime, f: (i32, u8, u8, u8, u8, u8)) -> bool {
     (d.year(), d.month(), d.month_day(), d.hour(), d.minute(), d.second()) == f
 }
 
+/// timestamp routes do not validate the nanosecond argument: whatever is passed is kept, the instant and the fields are those
+/// of the second count alone (nanoseconds >= 10^9 included)
+fn check_raw_ns(cyc: &Cycle, t: i64, ns: u32, off: i32, rec: &Recorder, tl: &mut Tally) {
+    let ltt = LocalTimeType::new(off, false, Some(b"XYZ")).unwrap();
+    let types = [ltt];
+    let zr = TimeZoneRef::new(&[], &types, &[], &None).unwrap();
+    let exp = expect_fields(cyc, t, off);
+    let case = |via: &str| json!({"kind":"raw_ns","t":t,"ns":ns,"off":off,"via":via});
+    let mut routes: Vec<(&str, Result<DateTime, TzError>)> = vec![("from_timespec_and_local", DateTime::from_timespec_and_local(t, ns, ltt)), ("from_timespec", DateTime::from_timespec(t, ns, zr))];
+    if let Ok(u) = UtcDateTime::from_timespec(t, ns) {
+        if u.nanoseconds() != ns || u.unix_time() != t {
+            rec.violation("raw_nanoseconds", case("UtcDateTime::from_timespec"), json!({"unix_time": t, "ns": ns}), json!(format!("{u:?}")));
+        }
+        routes.push(("UtcDateTime::project", u.project(zr)));
+    }
+    if let Ok(d0) = DateTime::from_timespec(t, ns, TimeZoneRef::utc()) {
+        routes.push(("DateTime::project", d0.project(zr)));
+    }
+    for (via, r) in routes {
+        tl.evals += 1;
+        match (&exp, r) {
+            (Some(f), Ok(d)) => {
+                if !(fields_match(&d, *f) && d.unix_time() == t && d.nanoseconds() == ns && d.total_nanoseconds() == t as i128 * 1_000_000_000 + ns as i128) {
+                    rec.violation("raw_nanoseconds", case(via), json!({"fields": format!("{f:?}"), "unix_time": t, "ns": ns}), json!(format!("{d:?}")));
+                }
+            }
+            (None, Err(TzError::OutOfRange)) => tl.nontrivial += 1,
+            (e, r) => rec.violation("raw_nanoseconds", case(via), json!(format!("{e:?}")), json!(format!("{r:?}"))),
+        }
+    }
+}
+
 fn instants() -> Vec<i64> {
     let mut v = vec![];
+    // second counts at which the nanosecond count crosses the i64 / u64 limits
+    for base in [9_223_372_036i64, -9_223_372_037, 18_446_744_073, 4_294_967_296, 4_294_967, 2_147_483] {
+        for d in -1..=1 {
+            v.push(base + d);
+        }
+    }
     for base in [0i64, MIN_UNIX_TIME, MAX_UNIX_TIME, 951868800, 1709251200, -62167219200, i32::MAX as i64, i32::MIN as i64, 1_000_000_000_000] {
         for d in [-86400i64, -3600, -61, -60, -59, -1, 0, 1, 59, 60, 61, 3599, 3600, 86399, 86400] {
             if let Some(x) = base.checked_add(d) {
@@ -349,9 +387,14 @@ pub fn run(args: &Args) -> i32 {
         .map(|&t| {
             let mut tl = Tally::default();
             for &off in &offs {
-                for ns in [0u32, 999_999_999] {
+                for ns in [0u32, 999_999_999, 854_775_807, 854_775_808, 709_551_615, 709_551_616] {
                     if let Err(m) = guard(|| check_paths(&cyc, t, ns, off, &rec, &mut tl)) {
                         rec.violation("paths", json!({"kind":"paths","t":t,"ns":ns,"off":off,"via":"*"}), json!("no panic"), json!(m));
+                    }
+                }
+                for ns in [1_000_000_000u32, 1_500_000_000, 2_000_000_000, u32::MAX] {
+                    if let Err(m) = guard(|| check_raw_ns(&cyc, t, ns, off, &rec, &mut tl)) {
+                        rec.violation("raw_nanoseconds", json!({"kind":"raw_ns","t":t,"ns":ns,"off":off,"via":"*"}), json!("no panic"), json!(m));
                     }
                 }
             }
@@ -416,6 +459,13 @@ pub fn replay(case: &Value, args: &Args) -> i32 {
         "paths" => {
             for _ in 0..2 {
                 if let Err(m) = guard(|| check_paths(&cyc, g("t"), g("ns") as u32, g("off") as i32, &rec, &mut tl)) {
+                    rec.violation("replay", case.clone(), json!("no panic"), json!(m));
+                }
+            }
+        }
+        "raw_ns" => {
+            for _ in 0..2 {
+                if let Err(m) = guard(|| check_raw_ns(&cyc, g("t"), g("ns") as u32, g("off") as i32, &rec, &mut tl)) {
                     rec.violation("replay", case.clone(), json!("no panic"), json!(m));
                 }
             }
